@@ -170,6 +170,19 @@ def _stages(opts):
     return st
 
 
+def _widens(spec, T=None, d=0):
+    """does the type contain a negation or an exclusive-or?"""
+    from utype.parser.rule import LogicalType
+    if T is not None and isinstance(T, LogicalType) and d < 8:
+        if T.combinator in ("~", "^"):
+            return True
+        if T.combinator:
+            return any(_widens(None, a, d + 1) for a in T.args)
+        o = getattr(T, "__origin__", None)
+        return o is not T and _widens(None, o, d + 1)
+    return False
+
+
 def _plain_exact(x, Ts):
     return any(isinstance(T, type) and type(x) == T for T in Ts)
 
@@ -256,8 +269,13 @@ def run_case(case, ctx):
                                       f"{short(T, 120)}({xr}): input type is exactly an argument type but result is {out!r}", wit, sig=sig)
                     continue
                 acc = []
-                for st in _stages(opts):
+                stages = _stages(opts)
+                for st in stages:
                     for j, Tj in enumerate(Ts):
+                        if st is not stages[-1] and _widens(specs[j] if j < len(specs) else None, Tj):
+                            # a negation / exclusive-or accepts MORE under stricter options: it "accepts" only under the
+                            # options as given (the preliminary stages do not ask it)
+                            continue
                         o = call(Tj, fresh(), st)
                         if o.ok:
                             acc.append((j, o.value))
